@@ -62,7 +62,7 @@ try:
         pk = sorted(set("./" + os.path.dirname(f) + "/..." for f in touched if f.endswith(".go")))
         # the wallet package tests exercise waddrmgr/wtxmgr as well
         if "./wallet/..." not in pk: pk.append("./wallet/...")
-        suite = sh("go test -vet=off -count=1 " + " ".join(pk), cf)
+        suite = sh("go test -vet=off -count=1 -skip TestBitcoindEvents " + " ".join(pk), cf)
     else:
         suite = sh("go test -vet=off -count=1 ./...", f"{cf}/{mod}")
     ok = base == 0 and build == 0 and mut != 0 and suite == 0
